@@ -50,12 +50,12 @@ var c16Numbers = []struct {
 	name  string
 	exprs []string
 }{
-	{"0", []string{"0", "(1 - 1)", "(1 & 2)", "(0 | 0)", bn.BLen + "([])", bn.BRound + "(0.2)", bn.BAbs + "(0)", bn.BMin + "(0, 4)", "(5 ^ 5)", "(0 * 7)"}},
-	{"3", []string{"3", "(1 + 2)", "(7 & 3)", "(3 | 0)", bn.BLen + "([0, 0, 0])", bn.BRound + "(3.2)", bn.BAbs + "(-3)", bn.BMin + "(3, 4)", "(6 >> 1)", "(9 / 3)", "[3][0]", "({n: 3}).n"}},
+	{"0", []string{"0", "(1 - 1)", "(1 & 2)", "(0 | 0)", bn.BLen + "([])", bn.BRound + "(0.2)", bn.BAbs + "(0)", bn.BMin + "(0, 4)", "(5 ^ 5)", "(0 * 7)", "(8 % 4)", "(2097152 % 1048576)"}},
+	{"3", []string{"3", "(1 + 2)", "(7 & 3)", "(3 | 0)", bn.BLen + "([0, 0, 0])", bn.BRound + "(3.2)", bn.BAbs + "(-3)", bn.BMin + "(3, 4)", "(6 >> 1)", "(9 / 3)", "[3][0]", "({n: 3}).n", "(11 % 8)", "(7 % 4)"}},
 	{"-1", []string{"(-1)", "(0 - 1)", "(~0)", "((-1) | 0)", bn.BRound + "(-0.6)", bn.BMax + "(-1, -2)", "(-(1))", "((-2) >> 1)"}},
-	{"1000000", []string{"1000000", "(999999 + 1)", "(1000 * 1000)", "(1000000 | 0)", "(1000000 & 1048575)", bn.BRound + "(1000000.2)", bn.BAbs + "(-1000000)", "(10 ** 6)", "(500000 << 1)"}},
-	{"2^53", []string{"9007199254740992", "(2 ** 53)", "(9007199254740991 + 1)", "(1 << 53)", "(9007199254740992 | 0)", bn.BAbs + "(-9007199254740992)", bn.BMax + "(1, 9007199254740992)"}},
-	{"12", []string{"12", "(3 * 4)", "(12 | 0)", "(8 | 4)", bn.BRound + "(11.5)", "১২"}},
+	{"1000000", []string{"1000000", "(999999 + 1)", "(1000 * 1000)", "(1000000 | 0)", "(1000000 & 1048575)", bn.BRound + "(1000000.2)", bn.BAbs + "(-1000000)", "(10 ** 6)", "(500000 << 1)", "(3097152 % 2097152)", "(1000000 % 2147483648)", "(1000000 % 1000001)"}},
+	{"2^53", []string{"9007199254740992", "(2 ** 53)", "(9007199254740991 + 1)", "(1 << 53)", "(9007199254740992 | 0)", bn.BAbs + "(-9007199254740992)", bn.BMax + "(1, 9007199254740992)", "(9007199254740992 % 18014398509481984)"}},
+	{"12", []string{"12", "(3 * 4)", "(12 | 0)", "(8 | 4)", bn.BRound + "(11.5)", "১২", "(28 % 16)", "(12 % 1048576)"}},
 }
 
 // contexts: %s is the hole.  Every context is one line.
